@@ -10,13 +10,16 @@
 //   sched <tid>...
 //   end
 //
-//   op   = <kind>[:<prims>] | stop | destroy
+//   op   = <kind>[:<prims>] | stop | destroy | curq | cura | curc (the current:: API from a thread that is no worker)
+//          kind det may be spelled detL / detF / detG: large (heap) closure / small closure in a caller-side cocls::function / large one that way
 //   kind = co  (detached coroutine doing `co_await pool`)          fn  (`pool.run(fn)` -> future)
 //          det (`pool.run_detached(fn)`)                           rh  (`pool.resume(suspend_point)` of a parked coroutine)
 //          ra  (`pool.run(async<int>)` -> future)                  aw  (coroutine doing `co_await pool(future)`, future resolved by the client)
 //   prims (what the unit of work does when it runs): s = pool.stop()   f = nested pool.run(fn)   d = nested run_detached
 //          D = delete the pool      x = the closure's destructor deletes the pool (det only; after the job ran)
 //          r = when the job is cancelled, its handler / destructor / watcher calls back into the pool (is_stopped())
+//          q = thread_pool::current::is_stopped()   a = thread_pool::current::any_enqueued()
+//          c = co_await thread_pool::current() (coroutine kinds co/rh/aw): the rest of the body is re-submitted to the pool of this worker
 //          w<n> = block until event n has been signalled (a job waiting for another job)      e<n> = signal event n
 //
 // Output: the shim's op lines (`s <tid> unlock mx`, `cv-block cv`, `join[-block] t<i>`, `fin`) interleaved with the events
@@ -35,6 +38,7 @@
 #undef condition_variable
 #undef thread
 #include <sys/wait.h>
+#include <array>
 
 using namespace cocls;
 using vshim::S;
@@ -143,17 +147,22 @@ struct Scn {
             S().block([this, f] { return flags[f]; });
         }
     }
-    void do_prims(int j) {
-        std::string prims = jobs[j].prims;   // copy: the deque may grow
+    static constexpr std::size_t npos = std::string::npos;
+    // runs the prims of `prims` up to the first 'c' (co_await thread_pool::current(), only a coroutine can do that);
+    // returns its index, or npos when the string is exhausted
+    std::size_t do_prims_from(const std::string &prims) {
         for (std::size_t i = 0; i < prims.size(); i++) {
             char c = prims[i];
             switch (c) {
+                case 'c': return i;
                 case 's': do_stop(); break;
                 case 'f': submit("fn", ""); break;
                 case 'd': submit("det", ""); break;
                 case 'D': do_destroy(); break;
                 case 'b': do_stopB(); break;
                 case 'B': do_destroyB(); break;
+                case 'q': do_cur_stopped(); break;
+                case 'a': do_cur_enq(); break;
                 case 'w': if (i + 1 < prims.size()) do_wait((prims[++i] - '0') % 10); break;
                 case 'e':
                     if (i + 1 < prims.size()) {
@@ -164,6 +173,73 @@ struct Scn {
                     break;
                 default: break;
             }
+        }
+        return npos;
+    }
+    // body of a job that is a plain function: 'c' cannot be expressed there and is skipped
+    void do_prims(int j) {
+        std::string rest = jobs[j].prims;   // copy: the deque may grow
+        for (;;) {
+            std::size_t p = do_prims_from(rest);
+            if (p == npos) break;
+            rest = rest.substr(p + 1);
+        }
+    }
+    // the "pool of this worker thread" API
+    void do_cur_stopped() {
+        bool r = thread_pool::current::is_stopped();
+        log("cur-stopped " + tid() + " " + (r ? "1" : "0"));
+    }
+    void do_cur_enq() {
+        bool r = thread_pool::current::any_enqueued();
+        log("cur-enq " + tid() + " " + (r ? "1" : "0"));
+    }
+    // co_await thread_pool::current(): when the thread is a worker of a pool that is not stopped, the rest of the body
+    // becomes a new unit of work (a `co_await pool` submission) of that pool; otherwise the coroutine just goes on
+    struct CurProbe {
+        Scn *sc;
+        int *j;
+        const std::string *rest;    // (no std::string member: g++ 12 relocates awaiter temporaries of a coroutine bitwise)
+        thread_pool::current::current_awaiter a = thread_pool::current().operator co_await();
+        bool ready = false;
+        bool await_ready() {
+            ready = a.await_ready();
+            if (ready) { sc->log("cur-inline " + tid()); return true; }
+            int j2 = (int)sc->jobs.size();
+            sc->jobs.emplace_back();
+            sc->jobs[j2].id = j2;
+            sc->jobs[j2].kind = "co";
+            bool react = *j >= 0 && sc->jobs[*j].prims.find('r') != npos;
+            sc->jobs[j2].prims = *rest + (react && rest->find('r') == npos ? "r" : "");
+            sc->log("submit j" + std::to_string(j2) + " co " + tid() + " exit=" + (sc->pool && sc->pool->_exit ? "1" : "0"));
+            *j = j2;
+            return false;
+        }
+        void await_suspend(std::coroutine_handle<> h) { a.await_suspend(h); }
+        void await_resume() {
+            a.await_resume();   // throws await_canceled_exception when the re-submission was cancelled
+            if (!ready) sc->on_run(*j);
+        }
+    };
+#define COCLS_VERIF_CORO_BODY(j)                                         \
+    {                                                                    \
+        std::string rest_ = jobs[j].prims;                               \
+        for (;;) {                                                       \
+            std::size_t p_ = do_prims_from(rest_);                       \
+            if (p_ == npos) break;                                       \
+            rest_ = rest_.substr(p_ + 1);                                \
+            CurProbe probe_{this, &j, &rest_};                           \
+            co_await probe_;                                             \
+        }                                                                \
+    }
+    async<void> cur_client() {
+        int j = -1;
+        std::string none;
+        try {
+            CurProbe probe{this, &j, &none};
+            co_await probe;
+        } catch (const await_canceled_exception &) {
+            if (j >= 0) on_cancel(j);
         }
     }
 
@@ -187,15 +263,19 @@ struct Scn {
         try {
             co_await *pool;
             on_run(j);
-            do_prims(j);
+            COCLS_VERIF_CORO_BODY(j)
         } catch (const await_canceled_exception &) {
             on_cancel(j);
         }
     }
     async<void> rh_job(int j) {
-        co_await grab{&jobs[j].h};
-        on_run(j);
-        do_prims(j);
+        try {
+            co_await grab{&jobs[j].h};
+            on_run(j);
+            COCLS_VERIF_CORO_BODY(j)
+        } catch (const await_canceled_exception &) {
+            on_cancel(j);
+        }
     }
     async<int> ra_job(int j) {
         on_run(j);
@@ -207,13 +287,43 @@ struct Scn {
             int v = co_await (*pool)(*jobs[j].fut);
             (void)v;
             on_run(j);
-            do_prims(j);
+            COCLS_VERIF_CORO_BODY(j)
         } catch (const await_canceled_exception &) {
             on_cancel(j);
         }
     }
 
-    int submit(const std::string &kind, const std::string &prims) {
+    // live instances of a throw-away target used to exercise function::operator= (the old target must die exactly once)
+    struct Counted {
+        int *live;
+        explicit Counted(int *l) : live(l) { ++*live; }
+        Counted(Counted &&o) noexcept : live(o.live) { ++*live; }
+        Counted(const Counted &) = delete;
+        ~Counted() { --*live; }
+        void operator()() {}
+    };
+    // run_detached through a caller-side cocls::function (the pool's own closure container type; the converting constructor
+    // from another storage size, function.h l.82/l.190, does not compile when instantiated): default construction,
+    // operator!, operator= (twice: the first target is destroyed), operator bool, operator==, then moved into the pool
+    template <typename Fn>
+    void run_detached_via(Fn &&closure) {
+        int live = 0;
+        thread_pool::q_item f;
+        bool e0 = !f;
+        f = thread_pool::q_item(Counted(&live));
+        bool l1 = live == 1;
+        f = thread_pool::q_item(std::forward<Fn>(closure));
+        bool ok = e0 && l1 && live == 0 && bool(f) && !(f == nullptr);
+        if (!ok) log("function-bad " + tid());
+        pool->run_detached(std::move(f));
+        if (f) log("function-bad-moved " + tid());
+    }
+
+    int submit(const std::string &kind_in, const std::string &prims) {
+        // detL / detF / detG: run_detached with a closure that does not fit the small-object space of the pool's closure
+        // container (heap) / a small closure handed over in a caller-side cocls::function / a large one handed over that way
+        std::string kind = kind_in.substr(0, 3) == "det" ? "det" : kind_in;
+        char variant = kind_in.size() > 3 && kind == "det" ? kind_in[3] : 'S';
         int j = (int)jobs.size();
         jobs.emplace_back();
         jobs[j].id = j;
@@ -231,11 +341,33 @@ struct Scn {
             arm(j);
         } else if (kind == "det") {
             bool kill = prims.find('x') != std::string::npos;
-            pool->run_detached([this, j, g = Guard(this, j, kill)]() mutable {
-                g.fired = true;
-                on_run(j);
-                do_prims(j);
-            });
+            if (variant == 'L') {
+                pool->run_detached([this, j, g = Guard(this, j, kill), pad = std::array<char, 100>()]() mutable {
+                    (void)pad;
+                    g.fired = true;
+                    on_run(j);
+                    do_prims(j);
+                });
+            } else if (variant == 'F') {
+                run_detached_via([this, j, g = Guard(this, j, kill)]() mutable {
+                    g.fired = true;
+                    on_run(j);
+                    do_prims(j);
+                });
+            } else if (variant == 'G') {
+                run_detached_via([this, j, g = Guard(this, j, kill), pad = std::array<char, 100>()]() mutable {
+                    (void)pad;
+                    g.fired = true;
+                    on_run(j);
+                    do_prims(j);
+                });
+            } else {
+                pool->run_detached([this, j, g = Guard(this, j, kill)]() mutable {
+                    g.fired = true;
+                    on_run(j);
+                    do_prims(j);
+                });
+            }
         } else if (kind == "rh") {
             rh_job(j).detach();
             pool->resume(suspend_point<void>(jobs[j].h));
@@ -255,6 +387,9 @@ struct Scn {
         for (auto &op : ops) {
             if (op == "stop") do_stop();
             else if (op == "destroy") do_destroy();
+            else if (op == "curq") do_cur_stopped();
+            else if (op == "cura") do_cur_enq();
+            else if (op == "curc") cur_client().detach();
             else if (op == "stopB") do_stopB();
             else if (op == "destroyB") do_destroyB();
             else {
